@@ -63,6 +63,7 @@ type flattenArgs struct {
 	Rerun   bool        `json:"rerun"`   // run again from the files and compare bytes (C05 reproducibility)
 	Getters bool        `json:"getters"` // record the analyzer state (C10)
 	Light   bool        `json:"light"`   // do not record trees (crash / fault campaigns)
+	Phases  bool        `json:"phases"`  // record a snapshot of the document after every phase / loop round (verif hooks)
 }
 
 type flattenRec struct {
@@ -93,6 +94,21 @@ type flattenRec struct {
 	LoadFailed bool              `json:"loadFailed"`
 	Fold       map[string]string `json:"fold"`
 	Crash      string            `json:"crash"`
+	Phases     []phaseSnap       `json:"phases"`
+	Events     []stepEvent       `json:"events"`
+}
+
+// phaseSnap is the document as it stands after a phase of Flatten (hook events phase.* / round.*).
+type phaseSnap struct {
+	Ev  string `json:"ev"`
+	Doc *Node  `json:"doc"`
+}
+
+// stepEvent is a fine-grained hook event (import.new, name, pointer.*, strip.one, reload) with its arguments.
+type stepEvent struct {
+	Ev   string   `json:"ev"`
+	Args []string `json:"args"`
+	At   int      `json:"at"` // number of phase snapshots taken before this event
 }
 
 type fullAnswers struct {
@@ -279,8 +295,23 @@ func opFlatten(req *Req) (any, map[string]string, error) {
 		}
 	}
 
+	rec.Phases, rec.Events = []phaseSnap{}, []stepEvent{}
+	if args.Phases && !args.Light {
+		analysis.VerifHook = func(ev string, doc *spec.Swagger, hargs ...string) {
+			if strings.HasPrefix(ev, "phase.") || strings.HasPrefix(ev, "round.") {
+				if b, e := json.Marshal(doc); e == nil {
+					if n, e2 := pj.ProjectBytes(b, "root"); e2 == nil {
+						rec.Phases = append(rec.Phases, phaseSnap{Ev: ev, Doc: n})
+					}
+				}
+				return
+			}
+			rec.Events = append(rec.Events, stepEvent{Ev: ev, Args: append([]string{}, hargs...), At: len(rec.Phases)})
+		}
+	}
 	resetLoader(args.FailAt)
 	sw, an, ferr, err := flattenOnce(req.Files["root"], o)
+	analysis.VerifHook = nil
 	if err != nil {
 		return nil, nil, fmt.Errorf("load root: %w", err)
 	}
